@@ -273,6 +273,18 @@ static LAST_PANIC: Mutex<Option<(String, String)>> = Mutex::new(None);
 /// whether the most recent panic was raised from a source file of the code under test
 static LAST_PANIC_IN_NODE_CODE: std::sync::atomic::AtomicBool = std::sync::atomic::AtomicBool::new(false);
 
+/// Set by chain::build_history when the history's own builder node aborted on a block that is honest
+/// and has only honest ancestors; pbt_run turns it into a violation of the running check (a history
+/// that is silently cut short at such a block would hide the defect from every oracle behind it).
+static BUILDER_ABORT: Mutex<Option<(String, String)>> = Mutex::new(None);
+pub fn note_builder_abort() {
+    let p = LAST_PANIC.lock().unwrap().clone().unwrap_or(("?".into(), "?".into()));
+    *BUILDER_ABORT.lock().unwrap() = Some(p);
+}
+pub fn take_builder_abort() -> Option<(String, String)> {
+    BUILDER_ABORT.lock().unwrap().take()
+}
+
 pub fn install_panic_hook() {
     std::panic::set_hook(Box::new(|info| {
         let in_node = info.location().map(|l| ["saito-core/src/", "saito-rust/src/", "saito-spammer/src/"].iter().any(|d| l.file().contains(d))).unwrap_or(false);
@@ -409,8 +421,14 @@ where
             // safety net: a panic raised inside the code under test that a check did not expect at
             // that call is reported for the generated case instead of aborting the run; a panic
             // raised by harness code is a harness bug and propagates
+            let _ = take_builder_abort();
             let viols = match catch(|| check(&mut **c, &v, counting)) {
-                Outcome::Returned(x) => x,
+                Outcome::Returned(mut x) => {
+                    if let Some((site, msg)) = take_builder_abort() {
+                        x.push((format!("{}|history_builder_aborts_on_honest_block|site={}", c.id, site), format!("while the history of this case was built, the builder node (the code under test, fed only honestly produced blocks on that branch) aborted at {site} on an honestly produced block: {msg}")));
+                    }
+                    x
+                }
                 Outcome::Panicked(site, msg) => {
                     if LAST_PANIC_IN_NODE_CODE.load(std::sync::atomic::Ordering::SeqCst) {
                         vec![(format!("{}|uncaught_panic_in_node_code|site={}", c.id, site), format!("a call into the code under test panicked at {site}: {msg}"))]
